@@ -13,6 +13,7 @@ def Out.enc : Out → String
   | .none => "none"
   | .err => "err"
   | .panic => "panic"
+  | .fuel => "fuel"
 
 /-- The harness' `split_at_cuts`: cut positions that are increasing and strictly inside the body. -/
 def splitAtCuts (body : List Nat) (cuts : List Nat) : List (List Nat) :=
